@@ -33,7 +33,7 @@
    that land on a link's last page, the continued-packet fallback, seeks that finish inside the last page (end-of-
    stream trim): tied per run by the bit-exact oracle; half rate: Properties_C20.v.  See DESIGN.md
    section 13. *)
-From VV Require Import Blocking VFile VFile_lemmas VFileDemo Sync_lemmas Seek_lemmas.
+From VV Require Import Blocking VFile VFile_lemmas VFileDemo Sync_lemmas Seek_lemmas SeekE_lemmas.
 From Coq Require Import ZArith List Lia.
 Import ListNotations.
 Local Open Scope Z_scope.
@@ -231,3 +231,38 @@ Example C07_demo_runs :
   (let '(r, s1) := pcm_seek demo 310 in r = 0 /\ v_pcm s1 = 310 /\ v_link s1 = 1) /\
   (let '(r, s1) := raw_seek demo 180 in r = 0 /\ v_pcm s1 = 176).
 Proof. vm_compute. repeat split; reflexivity. Qed.
+
+(* up to the very end of the link: the run may close with the link's end-of-stream packet, whose granule
+   position cuts the last block short (SeekE_lemmas.v; the landing packet carries a granule position, as it
+   does for every landing except the beginning-of-link one) *)
+Theorem C07_pcm_seek_truthful_to_link_end :
+  forall (tail : list page) s pos s1,
+    v_hs s = 0 -> OPENED <= v_rs s <= INITSET ->
+    pcm_seek_page s pos = (0, s1) -> fallback s pos = false -> FileIntactE tail s1 pos ->
+    fst (pcm_seek s pos) = 0 /\ TruthfulE tail (snd (pcm_seek s pos)) pos /\ v_pcm (snd (pcm_seek s pos)) = pos.
+Proof. exact pcm_seek_intact_e. Qed.
+Print Assumptions C07_pcm_seek_truthful_to_link_end.
+
+Theorem C07_pcm_seek_checked_to_link_end :
+  forall s pos, seek_hyps_e s pos = true ->
+    fst (pcm_seek s pos) = 0 /\ v_pcm (snd (pcm_seek s pos)) = pos /\
+    TruthfulE (auto_tail_e (snd (pcm_seek_page s pos))) (snd (pcm_seek s pos)) pos.
+Proof. exact pcm_seek_checked_e. Qed.
+Print Assumptions C07_pcm_seek_checked_to_link_end.
+
+(* what that buys: the samples pending after such a seek are those at the reported position; taking them
+   leaves the handle in sync, the decoder knowing its granule position, the rest of the run intact *)
+Theorem C07_truthful_pending_to_link_end :
+  forall (tail : list page) s pos, NReadyE tail s pos ->
+    exists e, v_pcm s = base_of s (v_link s) + e /\
+      let '(n, s2) := drain s in
+      0 <= n /\ SyncInv s2 (e + n) /\ v_pcm s2 = v_pcm s + n /\ d_gran (v_dec s2) = li_init (cur_link s) + (e + n) /\
+      IntactE (cur_link s) false (e + n) (d_W (v_dec s2)) (stream tail s2) /\ stream tail s2 = stream tail s.
+Proof. exact nready_e_drain. Qed.
+Print Assumptions C07_truthful_pending_to_link_end.
+
+(* non-vacuity: every position of the demo link, 0..700 (its end), meets one of the two executable tests *)
+Example C07_every_target_of_demo2_covered :
+  forallb (fun k => seek_hyps demo2 (Z.of_nat k) || seek_hyps_e demo2 (Z.of_nat k)) (seq 0 701) = true /\
+  seek_hyps_e demo2 700 = true /\ seek_hyps demo2 700 = false.
+Proof. vm_compute. repeat split. Qed.
